@@ -685,6 +685,9 @@ func c07Check(sc c07Scenario, kind drv.Kind) func(x *engine.Execution) *engine.V
 		if x.Result.Deadlock {
 			return &engine.Violation{Sig: sig("C07", class, sc.name, "deadlock"), Msg: fmt.Sprintf("deadlock: blocked threads %v", x.Result.Blocked), History: renderEvents(ex.events)}
 		}
+		if x.Result.IOUnderLock != "" {
+			return &engine.Violation{Sig: sig("C07", class, sc.name, "client-io-under-lock", strings.Fields(x.Result.IOUnderLock)[0]), Msg: "a request waits for its client (" + x.Result.IOUnderLock + "): a stalled client blocks every other request that needs the lock", History: renderEvents(ex.events)}
+		}
 		for tid, p := range x.Result.Panics {
 			return &engine.Violation{Sig: sig("C07", class, sc.name, "panic@"+drv.PanicFrame(p)), Msg: fmt.Sprintf("thread %d panicked: %s", tid, firstLine(p)), History: renderEvents(ex.events)}
 		}
